@@ -9,8 +9,11 @@ from .ops import b_not
 
 
 class Loop:
-    def __init__(self, invariants, modifies=(), index="k"):
+    def __init__(self, invariants, modifies=(), index="k", defs=None):
         self.invariants = list(invariants.items()) if isinstance(invariants, dict) else list(invariants)
+        # definitional axioms of ghost functions (e.g. a sum defined by recursion over the iterated sequence):
+        # assumed at the loop head, never checked -- only conservative definitions may go here
+        self.defs = list((defs or {}).items())
         self.modifies = list(modifies)
         self.index = index
 
